@@ -308,6 +308,7 @@ TSTest ==
 STraceNext == TSSwitch \/ TSTestBegin \/ TSTest \/ TSReset \/ TSDead \/ TSAbort \/ TSOpen \/ TSClose \/ TSMsgBegin \/ TSAddBegin \/ TSTry \/ TSAddEnd
               \/ TSDelete \/ TSCallErr \/ TSOpDone \/ TSOpLost \/ TSMsgEnd \/ TSFlushRPC \/ TSGet
               \/ (TSnapCheck /\ SUnch)
+              \/ (TAddNI /\ SUnch)      \* Server.AddNetworkInstance while the server runs
 
 STraceSpec == STraceInit /\ [][STraceNext]_stvars
 =============================================================================
